@@ -97,6 +97,11 @@ class Clip:
         warnings.simplefilter('ignore')
         self.spec = spec
         ds = enrich(datasets.build(spec))
+        if spec.get('as_coords') is False and spec['conv'] == 'cf2d':
+            # a file opened without coordinate decoding: the coordinates are plain variables and the data variables keep the CF attribute
+            for name in ('temp', 'f_last'):
+                if name in ds:
+                    ds[name].attrs['coordinates'] = 'lat lon'
         self.original = ds
         ems = ds.ems
         geom = geometries(ds)[geom_name]
